@@ -43,9 +43,9 @@ RULE = (
     "reference value is non-zero or a branch tag other than 'plain' is reached; distinct = distinct case id."
 )
 ASSUMPTIONS = [
-    "direct integrals: |got-ref| <= 10 x 1.49e-8 x sum over the quad calls WallGo makes of max(1,|piece|)  (scipy.integrate.quad's "
+    "direct integrals: |got-ref| <= 1.49e-8 x sum over the quad calls WallGo makes of max(1,|piece|)  (scipy.integrate.quad's "
     "default epsabs=epsrel=1.49e-8 is the accuracy the code promises - the models quote 1e-8 as 'set by the error tolerance of "
-    "the thermal integrals'; factor 10 because quad's estimate is not a bound)",
+    "the thermal integrals'; no extra factor: the largest residual/tolerance measured on the shipped tree is 0.15)",
     "direct derivative: the documented scheme is a 4th-order central difference with step 1e-16^(1/5); accepted = within "
     "(its truncation error on the exact function, computed with the oracle) + 1.5/step x value tolerance of that scheme "
     "applied to the exact function",
@@ -70,7 +70,7 @@ ASSUMPTIONS = [
 ]
 
 QUAD_EPS = 1.49e-8  # scipy.integrate.quad default epsabs = epsrel
-SAFETY = 10.0
+SAFETY = 1.0  # the promise itself: measured residual/tolerance on the shipped tree is <= 0.15 with no extra factor (was 10: missed seeded C20-Jb-table-rows-perturbed)
 EPS = float(np.finfo(float).eps)
 NROWS = 10000
 XLO, XHI = -20.0, 1000.0
